@@ -109,6 +109,29 @@ def plain4(n: int):
 def specialised4(n: int):
     return ilist.map(recm, ilist.range(n))
 
+def _rows():
+    @move
+    def position(i: int):
+        return spec.get_int_constant(constant_id="n2") + i
+    return position
+
+def _cols():
+    @move
+    def position(i: int):
+        return spec.get_int_constant(constant_id="n2") * 10 + i
+    return position
+
+rows_position = _rows()
+cols_position = _cols()
+
+@move
+def plain5(n: int):
+    return (ilist.map(rows_position, ilist.range(n)), ilist.map(cols_position, ilist.range(n)))
+
+@move(arch_spec=_C06.SPEC_SLOT)
+def specialised5(n: int):
+    return (ilist.map(rows_position, ilist.range(n)), ilist.map(cols_position, ilist.range(n)))
+
 @move
 def absent_leaf(i: int):
     return spec.get_int_constant(constant_id="not_there") + i
@@ -147,7 +170,8 @@ def first_class_stream(ctx, spec):
         for a, b, what in ((mod.plain, mod.specialised, "passed to ilist.map"), (mod.plain_direct, mod.specialised_direct, "called directly"),
                            (mod.plain2, mod.specialised2, "passed to ilist.map by a subroutine that is itself passed to ilist.map"),
                            (mod.plain3, mod.specialised3, "invoked by a subroutine that is passed to ilist.map"),
-                           (mod.plain4, mod.specialised4, "recursive and passed to ilist.map")):
+                           (mod.plain4, mod.specialised4, "recursive and passed to ilist.map"),
+                           (mod.plain5, mod.specialised5, "one of two distinct subroutines with the same Python name, both passed to ilist.map")):
             ref = EV.run_with_events(a, spec, (n,))
             got = EV.run_with_events(b, spec, (n,), plain=True)
             def show(v):
